@@ -254,3 +254,41 @@ Example example_chain :
      /\ s_attrs L = Some [{| at_name := "is_aligned"; at_values := [] |}; {| at_name := "size"; at_values := [AvStr "size"] |}])
   /\ map decl_name (type_descriptors example_expanded) = ["Amt"; "Kind"; "Elem"; "User"; "Root"; "Upper"; "Leaf"].
 Proof. split; [eexists; split; [vm_compute; reflexivity|]|]; vm_compute; repeat split; reflexivity. Qed.
+
+(* ---- non-vacuity of the remaining premises (inline_template_spec, flatten_is_the_splice, expand_frame_named, expand_frame_unnamed), on the example schema; the
+        frame theorems are instantiated with a SECOND schema that differs from the first (one more declaration) ---- *)
+Definition ex_extra : decl := DAlias "Extra" (LInt {| it_unsigned := true; it_size := (2)%Z; it_sizeref := None |}) None.
+Definition ex_struct_named (s : list decl) (n : string) : struct :=
+  match lookup s n with Some (DStruct st) => st | _ => {| s_name := ""; s_disp := SdNone; s_fields := []; s_factory_type := None; s_attrs := None; s_comment := None; s_requires_unaligned := false |} end.
+
+Example premises_nonvacuous :
+  (* inline_template_spec *)
+  (let T := ex_struct_named example_after_attributes "Tmpl" in s_disp T = SdInline /\ forallb is_field (s_fields T) = true)
+  (* flatten_is_the_splice: the depth bound is sufficient *)
+  /\ term (length example_after_named) example_after_named (s_fields (ex_struct_named example_after_named "Leaf")) = true
+  (* expand_frame_template_unchanged: the template Tmpl is not itself a user *)
+  /\ (NoDup (map decl_name example_after_attributes) /\ expand_named example_after_attributes = Ok example_after_named
+      /\ nth_error example_after_attributes 3 = Some (DStruct (ex_struct_named example_after_attributes "Tmpl"))
+      /\ is_struct_with has_named_inline (DStruct (ex_struct_named example_after_attributes "Tmpl")) = false)
+  (* expand_frame_named: a second schema (one more declaration) that agrees on the templates the sites of User name *)
+  /\ (let s1 := example_after_attributes in let s2 := (example_after_attributes ++ [ex_extra])%list in
+      named_wf s2 /\ flat_templates s2
+      /\ forall st m t, DStruct (ex_struct_named s1 "User") = DStruct st -> In m (s_fields st) -> site_target m = Some t -> lookup s1 t = lookup s2 t)
+  (* expand_frame_unnamed: the same for everything Mid transitively inlines *)
+  /\ (let s1 := example_after_named in let s2 := (example_after_named ++ [ex_extra])%list in
+      NoDup (map decl_name s2) /\ acyclic s2 = true
+      /\ forall t, Reach s1 (s_fields (ex_struct_named s1 "Mid")) t -> lookup s2 t = lookup s1 t).
+Proof.
+  split; [vm_compute; split; reflexivity|]. split; [vm_compute; reflexivity|].
+  split; [split; [apply nodup_b_sound; vm_compute; reflexivity|vm_compute; repeat split; reflexivity]|].
+  split.
+  - cbv zeta. split; [apply named_wf_b_sound; vm_compute; reflexivity|]. split; [apply flat_templates_b_sound; vm_compute; reflexivity|].
+    intros st m t E Hin Ht. injection E as <-. vm_compute in Hin.
+    repeat (destruct Hin as [<-|Hin]; [vm_compute in Ht; try discriminate Ht; injection Ht as <-; vm_compute; reflexivity|]). contradiction.
+  - cbv zeta. split; [apply nodup_b_sound; vm_compute; reflexivity|]. split; [vm_compute; reflexivity|].
+    intros t H. inversion H as [t' c fs Hin|t' c T fs u Hin Hl Hr]; subst.
+    + vm_compute in Hin. destruct Hin as [E|[E|[]]]; inversion E; subst. vm_compute. reflexivity.
+    + vm_compute in Hin. destruct Hin as [E|[E|[]]]; inversion E; subst. vm_compute in Hl. injection Hl as <-.
+      inversion Hr as [t2 c2 fs2 Hin2|t2 c2 T2 fs2 u2 Hin2 Hl2 Hr2]; subst; cbn in Hin2; destruct Hin2 as [E2|[]]; discriminate E2.
+Qed.
+Print Assumptions premises_nonvacuous.
